@@ -133,6 +133,40 @@ Definition rt_poll (now1 now2 : Z) (w : wheel) : option Z * list waker * wheel :
   let '(ws, w') := wake now2 w in
   (t, ws, w').
 
+(* Runtime::poll_with(timeout), with what driver.poll answered as an input of
+   the environment: Ok(()) (some completion was found), Err(TimedOut),
+   Err(Interrupted), or any other error.  The first three are swallowed and
+   timer_runtime.wake() runs after every one of them; another error panics
+   (`panic!("{e:?}")`) before the wheel is touched.                            *)
+Inductive drv_answer := DOk | DTimedOut | DInterrupted | DError.
+
+Definition poll_with (ans : drv_answer) (now : Z) (w : wheel) : R (list waker * wheel) :=
+  match ans with
+  | DError => Panic P_OTHER
+  | _ => Ok (wake now w)
+  end.
+
+(* one turn of the block_on loop after the main future returned Pending:
+   `if remaining_tasks { poll_with(Some(ZERO)) } else { poll() }`; the timeout
+   handed to the driver is an output, [now1] is read by min_timeout, [now2] by
+   wake when the driver has returned *)
+Definition loop_iter (remaining : bool) (ans : drv_answer) (now1 now2 : Z) (w : wheel)
+  : R (option Z * list waker * wheel) :=
+  let t := if remaining then Some 0 else min_timeout now1 w in
+  let! '(ws, w') := poll_with ans now2 w in
+  Ok (t, ws, w').
+
+(* any number of turns: per turn (remaining tasks?, driver answer, now1, now2) *)
+Definition turn := (bool * drv_answer * Z * Z)%type.
+Fixpoint loop_run (w : wheel) (ts : list turn) : R (list (list waker) * wheel) :=
+  match ts with
+  | [] => Ok ([], w)
+  | (rem, ans, n1, n2) :: r =>
+    let! '(_, ws, w1) := loop_iter rem ans n1 n2 w in
+    let! '(wss, w2) := loop_run w1 r in
+    Ok (ws :: wss, w2)
+  end.
+
 (* ---------------------------------------------------------------------- *)
 (* programs over the wheel (what futures holding keys can do to it)         *)
 
@@ -291,3 +325,29 @@ Fixpoint timeout_spec (expired : bool) (d : Z) (evs : list tev) : tres :=
   | TOp (OWake now) :: r => timeout_spec (expired || (d <=? now)) d r
   | TOp _ :: r => timeout_spec expired d r
   end.
+
+(* an Interval under its environment: every tick() call reads the clock [now];
+   [completed] = the call was awaited to its end (false: the future was dropped
+   while its sleep was pending).  The list of the instants the calls sleep until. *)
+Inductive ivev := IvTick (now : Z) (completed : bool).
+
+Fixpoint iv_run (iv : interval) (evs : list ivev) : list Z :=
+  match evs with
+  | [] => []
+  | IvTick now c :: r =>
+    tick_deadline iv now :: iv_run (if c then tick_done iv else iv) r
+  end.
+
+(* what never-early gives about the clock: once a tick has completed, the clock
+   has reached start *)
+Fixpoint clocked (ticked : bool) (start : Z) (evs : list ivev) : Prop :=
+  match evs with
+  | [] => True
+  | IvTick now c :: r => (ticked = true -> start <= now) /\ clocked (ticked || c) start r
+  end.
+
+Definition iv_completed (e : ivev) : bool := match e with IvTick _ c => c end.
+
+(* the turns of a loop as wheel operations *)
+Definition turn_ops (ts : list turn) : list op :=
+  map (fun t : turn => OWake (snd t)) ts.
